@@ -509,3 +509,40 @@ def llvm_term(repo, op, nargs, size, arg_sizes=None):
     leaves = [FakeExpr("id", s, name="abcd"[i]) for i, s in enumerate(sizes)]
     expr = FakeExpr("op", size, op=op, args=leaves)
     return it.call_function(real, [expr], self_obj=selfobj)
+
+
+# ---------------------------------------------------------------------------------------------------------------------
+# C back end: the sequence of segments CGen.gen_c_code emits for one assignment block
+
+CGENF = "miasm/jitter/codegen.py"
+
+
+def cgen_sequence(repo, has_prefetch, mem_write, set_exception, mem_read=None):
+    """Markers, in emission order, of the C lines gen_c_code returns when the five segments are the one-line lists <prefetch> <var> <main>
+    <mem> <updt> (prefetch empty when has_prefetch is false), the destination code is <dst>, and the exception tests are replaced by the
+    one-line lists <check_mem> / <check_cpu>.  Everything else the function emits (braces, comments) is dropped."""
+    m = repo.mod(CGENF)
+    cls = "CGen"
+    meths = dict((q.split(".", 1)[1], f) for q, f in m.funcs.items() if q.startswith(cls + ".") and q.count(".") == 1)
+    meths["gen_check_memory_exception"] = ast.parse("def gen_check_memory_exception(self, address):\n    return ['<check_mem>']").body[0]
+    meths["gen_check_cpu_exception"] = ast.parse("def gen_check_cpu_exception(self, address):\n    return ['<check_cpu>']").body[0]
+    it = Interp(functions={}, methods=meths, consts=_module_consts(repo, CGENF))
+    selfobj = {"__self__": True}
+    selfobj.update(_class_consts(m, cls))
+    attrib = {"__record__": True, "mem_write": mem_write, "set_exception": set_exception, "mem_read": has_prefetch if mem_read is None else mem_read,
+              "instr": {"__record__": True, "offset": 0x1000, "l": 4}, "log_mn": False, "log_regs": False}
+    segs = (["<prefetch>"] if has_prefetch else [], ["<var>"], ["<main>"], ["<mem>"], ["<updt>"])
+    fn = meths["gen_c_code"]
+    params = [a.arg for a in fn.args.args[1:]]
+    args = []
+    for p_ in params:
+        if "attrib" in p_:
+            args.append(attrib)
+        elif "dst" in p_:
+            args.append(["<dst>"])
+        else:
+            args.append(segs)
+    out = it.call_function(fn, args, self_obj=selfobj)
+    if not isinstance(out, list):
+        raise Undetermined("gen_c_code did not return a list")
+    return [x for x in out if isinstance(x, str) and x.startswith("<") and x.endswith(">")]
